@@ -22,7 +22,8 @@
    an error with the IsNeedAbortError bit. Not modelled: engine write failures (CommitBatchWrite
    returning an error), isUnrecoveryError panics (disk full), BeginBatchWrite refusing because another
    batch is open (impossible with one operator alive at a time, which applyEntries guarantees), the
-   partial writes a failing handler leaves in db.wb (always cleared by AbortBatch; the only
+   partial writes a failing handler leaves in db.wb (always cleared by AbortBatch, batched or not: checked
+   on the code by the part-way-failing-writes sweep with a restore cut at every position; the only
    non-aborting error, errTooMuchBatchSize, is returned before db.wb is touched), metrics/slow logs.
    A Go index panic (cmd.Args[1] on a one-word command) is the explicit outcome [None]. *)
 From Coq Require Import List NArith Bool.
